@@ -112,7 +112,7 @@ class Gen:
             if k < 0.6 and self.use_builtins: return ['_স্ট্রিং', '('] + self.expr(scope, 'num', depth + 1) + [')']
             if k < 0.7 and self.use_builtins: return ['_টাইপ', '('] + self.expr(scope, 'any', depth + 1) + [')']
             if k < 0.8 and self.use_builtins:
-                return ['_স্ট্রিং-জয়েন', '(', '[', '"a"', ',', '"b"', ',', '"' + r.choice(STRS) + '"', ']', ',', '"' + r.choice(['', ',', '-', 'ab']) + '"', ')']
+                return ['_স্ট্রিং-জয়েন', '(', '[', '"a"', ',', '"b"', ',', '"' + r.choice(STRS) + '"', ']', ',', '"' + r.choice(['', ',', '-', 'ab']) + '"', ')']
             f = self.pick_func('str')
             if f: return self.call(scope, f, depth)
             return ['"' + r.choice(STRS) + '"']
